@@ -127,9 +127,11 @@ class Replayer:
             e["yaml"] = "\n--- next file ---\n".join(yamls)
             ins = []
             for k, y in enumerate(yamls):
-                with open(os.path.join(d, "in%d.yaml" % k), "w") as f:
+                # the order of the -i flags is the merge order, whatever the lexical order of the names (here: the reverse)
+                nm = "in0.yaml" if len(yamls) == 1 else "%s%d.yaml" % (chr(ord("z") - k), k)
+                with open(os.path.join(d, nm), "w") as f:
                     f.write(y)
-                ins += ["-i", "in%d.yaml" % k]
+                ins += ["-i", nm]
             jobs.append({"id": i, "dir": d, "args": ins + ["-o", "out.go"] + (["--stub"] if stub else []),
                          "version": "dev-main", "buildinfo": "verif", "out": "out.go", "want_out": True})
         try:
